@@ -780,6 +780,138 @@ def multi_open_oracle(ctx, entries):
     return False
 
 
+
+# ---------------------------------------------------------------------------------------- histories of opens: the cache never forgets
+def cache_opener():
+    """a fresh private instance of the real ConnectionURIOpener: `sqlite` builds the real SQLiteConnection,
+    the other schemes the recorder (cheap: thousands of distinct URIs)"""
+    E = env()
+    dbc = E['dbconnection']
+    _, Rec = recording_opener()
+    op = dbc.ConnectionURIOpener()
+    op.registerConnection(list(E['classes']), lambda: Rec)
+    op.registerConnection(['sqlite'], lambda: E['SQLiteConnection'])
+    return op
+
+
+def global_opener():
+    """the process-wide opener, with one extra scheme that builds the recorder"""
+    E = env()
+    dbc = E['dbconnection']
+    _, Rec = recording_opener()
+    if 'global_builder' not in E:
+        E['global_builder'] = lambda: Rec
+        dbc.TheURIOpener.registerConnection(['c18probe'], E['global_builder'])
+    return dbc.TheURIOpener
+
+
+def other_uri(i, probe=False):
+    scheme = 'c18probe' if probe else ('mysql', 'postgres', 'firebird', 'maxdb', 'mssql', 'sybase')[i % 6]
+    return '%s://user%d@h%d.example:%d/db%%20%d%s' % (scheme, i % 7, i, 1 + i % 65535, i, '?charset=utf8' if i % 5 == 0 else '')
+
+
+HISTORY_KINDS = ['memory', 'memory+timeout', 'file', 'file+timeout', 'recorder']
+
+
+def history_problem(kind, n, use_global=False):
+    """open a database by URI, put a marker in it, open `n` other distinct URIs, open the URI the connection
+    reports again: the same database?  returns a problem text or None"""
+    op = global_opener() if use_global else cache_opener()
+    before = set(op.cachedURIs)
+    real = []
+    try:
+        with Scratch() as sc:
+            params = {'timeout': '30'} if kind.endswith('+timeout') else {}
+            if kind.startswith('memory'):
+                uri = 'sqlite:/:memory:'
+            elif kind.startswith('file'):
+                uri = real_suri(os.path.join(sc.dir, 'hist ?#%41.db'))[0]
+            else:
+                uri = 'mysql://u:p@target.example:3306/db'
+            c0 = op.connectionForURI(uri, **params)
+            if kind != 'recorder':
+                real.append(c0)
+                c0.query('CREATE TABLE c18_hist (v TEXT)')
+                c0.query("INSERT INTO c18_hist VALUES ('marker')")
+                reported = c0.uri()
+                if reported != uri:
+                    return 'the connection opened from %r reports %r' % (uri, reported)
+            for i in range(n):
+                op.connectionForURI(other_uri(i, probe=use_global))
+            c1 = op.connectionForURI(uri, **params)
+            if c1 is not c0 and kind != 'recorder':
+                real.append(c1)
+            if kind == 'recorder':
+                return None if c1 is c0 else 'the URI gives another connection object than before'
+            try:
+                rows = [tuple(r) for r in c1.queryAll('SELECT v FROM c18_hist')]
+            except Exception as e:
+                rows = '%s: %s' % (exc(e), e)
+            if rows != [('marker',)]:
+                return ('the connection opened again from the reported URI %r does not hold the data written through the first one: %r%s'
+                        % (uri, rows, '' if c1 is c0 else ' (a different connection object)'))
+            if kind.startswith('memory') and c1 is not c0:
+                return 'the in-memory URI gives a different connection object (a different, empty database)'
+            return None
+    finally:
+        for c in real:
+            try:
+                c.close()
+            except Exception:
+                pass
+        for k in set(op.cachedURIs) - before:
+            op.cachedURIs.pop(k, None)
+
+
+def cache_history_oracle(ctx, kind, schedule, use_global=False):
+    prev = 0
+    for n in schedule:
+        what = history_problem(kind, n, use_global)
+        if what is not None:
+            lo, hi = prev, n            # no problem after `lo` others (or lo = 0 untested), problem after `hi`
+            if lo == 0 and history_problem(kind, 0, use_global) is not None:
+                hi = 0
+            while hi - lo > 1:
+                mid = (lo + hi) // 2
+                if history_problem(kind, mid, use_global) is not None:
+                    hi = mid
+                else:
+                    lo = mid
+            what = history_problem(kind, hi, use_global) or what
+            ctx.oracle_fail('C18:cache-history:%s%s:lost-after-%d-other-uris' % (kind, ':global' if use_global else '', hi),
+                            'connectionForURI, %s opener: a %s database opened by URI, then %d other distinct URIs, then its own URI again: %s'
+                            % ('process-wide' if use_global else 'private', kind, hi, what),
+                            {'cache_history': {'kind': kind, 'n': hi, 'global': use_global}})
+            return False
+        prev = n
+    return True
+
+
+def random_history_oracle(ctx, rng, pool, length):
+    """every URI always gives the connection it gave the first time, whatever is opened in between"""
+    op = cache_opener()
+    uris = [other_uri(i) for i in range(pool)]
+    first = {}
+    last_seen = {}
+    for step in range(length):
+        j = rng.randint(0, pool - 1) if rng.random() < 0.7 else rng.randint(0, min(pool - 1, 9))
+        try:
+            c = op.connectionForURI(uris[j])
+        except Exception as e:
+            ctx.oracle_fail('C18:cache-history:random:raises:%s' % exc(e), 'connectionForURI(%r) raises %s' % (uris[j], exc(e)),
+                            {'cache_history': {'kind': 'recorder', 'n': 0, 'global': False}})
+            return False
+        if j in first and first[j] is not c:
+            d = len(set(k for k, t in last_seen.items() if t > last_seen[j]))
+            ctx.oracle_fail('C18:cache-history:random:other-connection-after-%d-distinct' % d,
+                            'a URI opened again after %d other distinct URIs (pool %d, step %d) gives another connection object'
+                            % (d, pool, step), {'cache_history': {'kind': 'recorder', 'n': d, 'global': False}})
+            return False
+        first.setdefault(j, c)
+        last_seen[j] = step
+    return True
+
+
 # ---------------------------------------------------------------------------------------- run
 def load_corpus():
     path = os.path.join(HERE, 'corpus', 'C18', 'cases.json')
@@ -951,6 +1083,18 @@ def run(ctx):
         ok = multi_open_oracle(ctx, g)
         ctx.case(('m', json.dumps(g, sort_keys=True)), nontrivial=True, kind='sqlite:multi-open' + ('' if ok else ':fail'))
 
+    # ---- histories: a URI opened once gives the same database after any number of other URIs ----
+    schedule = [1, 8, 70, 600, 3000] + ([20000, 100000] if (ctx.tier == 'thorough' or ctx.deep) else [])
+    for kind in HISTORY_KINDS:
+        ok = cache_history_oracle(ctx, kind, schedule if kind in ('memory', 'recorder') else schedule[:4])
+        ctx.case(('h', kind), nontrivial=True, kind='cache-history:' + kind + ('' if ok else ':fail'))
+    for kind in ('memory', 'file'):
+        ok = cache_history_oracle(ctx, kind, [150, 2500], use_global=True)
+        ctx.case(('hg', kind), nontrivial=True, kind='cache-history:global:' + kind + ('' if ok else ':fail'))
+    for pool, length in [(5, 60), (40, 300), (300, 1500), (2500, ctx.budget(6000, 60000))]:
+        ok = random_history_oracle(ctx, rng, pool, length)
+        ctx.case(('hr', pool, length), nontrivial=True, kind='cache-history:random' + ('' if ok else ':fail'))
+
     # ---- ports: non-numeric / out of range must be rejected ------------------------------------
     port_cases = list(corpus.get('ports', [])) + PORT_TEXTS + [str(rng.randint(0, 140000)) for _ in range(ctx.budget(300, 5000))] \
         + [rstr(rng, 4, pct=0.05) for _ in range(ctx.budget(300, 5000))]
@@ -1022,6 +1166,11 @@ def replay(case):
             self.fails.append((key, what))
     c = C()
     C.fails = []
+    if 'cache_history' in case:
+        h = case['cache_history']
+        what = history_problem(h['kind'], h['n'], h.get('global', False))
+        return what is None, ('a %s database opened by URI, %d other distinct URIs, its URI again (%s opener): %s'
+                              % (h['kind'], h['n'], 'process-wide' if h.get('global') else 'private', what or 'the same database'))
     if 'multi_open' in case:
         pr = run_multi_open(case['multi_open'])
         return not pr, 'opened in this order: %s\n%s' % (json.dumps(case['multi_open'], ensure_ascii=True),
